@@ -2,7 +2,7 @@
    Every theorem is about ALL signatures (parameter lists of any length), all traced-type tables,
    all function kinds; the strategy values, the receiver kinds and the CLI flag table come from
    Gen/Constants.v, regenerated from /repo on every run. *)
-From MT Require Import Types Infer TypesFacts Constants SigUpdate SigUpdateFacts SigUpdateSpec.
+From MT Require Import Types Infer TypesFacts Constants SigUpdate SigUpdateFacts SigUpdateSpec SigUpdateCases SigUpdateTie.
 Local Open Scope list_scope.
 Local Open Scope string_scope.
 
@@ -203,6 +203,27 @@ Theorem model_meets_checked_predicate :
     spec_sig s kind sg tr (update_sig s kind sg tr) = true.
 Proof. exact update_meets_spec. Qed.
 Print Assumptions model_meets_checked_predicate.
+
+(* the same predicate as the check writes it (documented member names and receiver kinds, no table lookup) *)
+Theorem checked_predicate_holds_of_model :
+  forall name s kind sg tr,
+    In name ["REPLICATE"; "OMIT"; "IGNORE"] -> is_strat name s = true -> In kind (map fst function_kinds) ->
+    wf_sig sg -> wf_traced tr ->
+    spec_sig_with (allowed_m (mode_of_name name)) (doc_self kind) sg tr (update_sig s kind sg tr) = true.
+Proof. exact SigUpdateTie.checked_predicate_holds_of_model. Qed.
+Print Assumptions checked_predicate_holds_of_model.
+
+Theorem documented_flags_are_implemented :
+  forall parser flags, In parser ["group"; "apply_parser"] ->
+    In flags [[]; ["--ignore-existing-annotations"]; ["--omit-existing-annotations"];
+              ["--ignore-existing-annotations"; "--omit-existing-annotations"];
+              ["--omit-existing-annotations"; "--ignore-existing-annotations"]] ->
+    match doc_flags parser flags with
+    | Some name => exists s, cli_strategy parser flags = CliStrategy s /\ is_strat name s = true
+    | None => cli_strategy parser flags = CliUsageError
+    end.
+Proof. exact doc_flags_agree. Qed.
+Print Assumptions documented_flags_are_implemented.
 
 (* ---- "traced" means: some trace mentions the position (shrink_traced_types) ---- *)
 Theorem traced_positions :
